@@ -737,9 +737,13 @@ func init() {
 	}
 	ex["(*sync.Mutex).Lock"] = func(fr *frame, a []value) value {
 		st := mutexState(a[0].(*value))
+		g := E.cur
+		g.wouldBlock = func() bool { return (*st).(int32) != 0 }
 		E.yield(false)
+		g.wouldBlock = nil
 		E.block("Mutex.Lock", func() bool { return (*st).(int32) == 0 })
 		*st = int32(1)
+		E.cur.held++
 		return nil
 	}
 	ex["(*sync.Mutex).TryLock"] = func(fr *frame, a []value) value {
@@ -757,6 +761,9 @@ func init() {
 			panic(targetPanic{iface{fr.i.runtimeErrorString, "sync: unlock of unlocked mutex"}})
 		}
 		*st = int32(0)
+		if E.cur.held > 0 {
+			E.cur.held--
+		}
 		E.yield(false)
 		return nil
 	}
@@ -764,9 +771,13 @@ func init() {
 	ex["(*sync.RWMutex).Lock"] = func(fr *frame, a []value) value {
 		p := a[0].(*value)
 		st := mutexState(p)
+		g := E.cur
+		g.wouldBlock = func() bool { return (*st).(int32) != 0 || E.rwReaders[p] != 0 }
 		E.yield(false)
+		g.wouldBlock = nil
 		E.block("RWMutex.Lock", func() bool { return (*st).(int32) == 0 && E.rwReaders[p] == 0 })
 		*st = int32(1)
+		E.cur.held++
 		return nil
 	}
 	ex["(*sync.RWMutex).Unlock"] = func(fr *frame, a []value) value {
@@ -775,13 +786,19 @@ func init() {
 			panic(targetPanic{iface{fr.i.runtimeErrorString, "sync: Unlock of unlocked RWMutex"}})
 		}
 		*st = int32(0)
+		if E.cur.held > 0 {
+			E.cur.held--
+		}
 		E.yield(false)
 		return nil
 	}
 	ex["(*sync.RWMutex).RLock"] = func(fr *frame, a []value) value {
 		p := a[0].(*value)
 		st := mutexState(p)
+		g := E.cur
+		g.wouldBlock = func() bool { return (*st).(int32) != 0 }
 		E.yield(false)
+		g.wouldBlock = nil
 		E.block("RWMutex.RLock", func() bool { return (*st).(int32) == 0 })
 		E.rwReaders[p]++
 		return nil
